@@ -297,8 +297,11 @@ fn cmp_uint_float(u: u64, f: f64) -> Option<Ordering> {
 impl PartialEq for Value {
     fn eq(&self, other: &Self) -> bool {
         match (self, other) {
-            (Value::Map(a), Value::Map(b)) => a == b,
-            (Value::List(a), Value::List(b)) => a == b,
+            // Compare the contents: `Arc`'s own `==` short-circuits on pointer equality (because
+            // `Value: Eq` is declared), which would make a shared list or map holding NaN equal
+            // to itself while an equal copy of it is not.
+            (Value::Map(a), Value::Map(b)) => *a.map == *b.map,
+            (Value::List(a), Value::List(b)) => **a == **b,
             (Value::Function(a1, a2), Value::Function(b1, b2)) => a1 == b1 && a2 == b2,
             (Value::Int(a), Value::Int(b)) => a == b,
             (Value::UInt(a), Value::UInt(b)) => a == b,
